@@ -362,6 +362,56 @@ func runOp(r *core.Rand, m *message) string {
 	return "run " + r.Pick("q", "s") + " " + m.token()
 }
 
+// xrunOp: one exchange: the request side sees m1; before the response side runs the exchange has changed
+// in some of the parts the matchers read (URL segments, method, Host/length/encoding, header lines and
+// cookies), half of the time bent towards (another) condition of the tree.
+func xrunOp(r *core.Rand, conds []*condSpec) string {
+	m1 := genMessage(r, conds...)
+	m2 := genMessage(r, conds...)
+	keep := func() bool { return r.Chance(3, 5) }
+	if keep() {
+		m2.method = m1.method
+	}
+	if keep() {
+		m2.scheme = m1.scheme
+	}
+	if keep() {
+		m2.host = m1.host
+	}
+	if keep() {
+		m2.path = m1.path
+	}
+	if keep() {
+		m2.rawQuery = m1.rawQuery
+	}
+	if keep() {
+		m2.reqHost, m2.reqCL, m2.reqTE = m1.reqHost, m1.reqCL, m1.reqTE
+	}
+	if keep() {
+		m2.reqHdr, m2.reqCk = m1.reqHdr, m1.reqCk
+	}
+	return "xrun " + m1.token() + " " + m2.token()
+}
+
+// exchangeCase: a filter-rich tree, then exchanges that change between their two sides.
+func exchangeCase(r *core.Rand) []string {
+	g := &genState{r: r, maxD: r.Range(2, 4), maxW: 3}
+	var kids []*node
+	for i, n := 0, r.Range(1, 3); i < n; i++ {
+		c := &node{kind: 'C', cond: genCond(r), scope: r.Pick("n", "n", "qs", "s"), kids: []*node{g.tree(2)}}
+		if c.cond.kind != 'p' && r.Chance(2, 3) {
+			c.els = g.tree(2)
+		}
+		kids = append(kids, c)
+	}
+	t := &node{kind: 'F', scope: "n", agg: r.Bool(), kids: kids}
+	ops := []string{"post " + t.String()}
+	for i, n := 0, r.Range(4, 8); i < n; i++ {
+		ops = append(ops, xrunOp(r, t.conds()))
+	}
+	return ops
+}
+
 func genCase(r *core.Rand, maxD, maxW int) []string {
 	var ops []string
 	posts := r.Range(2, 4)
@@ -384,6 +434,10 @@ func genCase(r *core.Rand, maxD, maxW int) []string {
 		ops = append(ops, "post "+t.String())
 		runs := r.Range(3, 6)
 		for j := 0; j < runs; j++ {
+			if r.Chance(1, 5) {
+				ops = append(ops, xrunOp(r, t.conds()))
+				continue
+			}
 			ops = append(ops, runOp(r, genMessage(r, t.conds()...)))
 		}
 	}
@@ -682,6 +736,9 @@ func (P) Gen(r *core.Rand, tier string, emit func([]string)) {
 		}
 		if i%6 == 1 {
 			emit(aggCase(r.Fork()))
+		}
+		if i%5 == 2 {
+			emit(exchangeCase(r.Fork()))
 		}
 		if i%4 == 2 {
 			emit(setCase(rs.Fork()))
